@@ -169,6 +169,7 @@ def setToggle (t : Toggles) (a : String) : Toggles :=
   | "f1p" => { t with f1p := true } | "nof1p" => { t with f1p := false }
   | "f1q" => { t with f1q := true } | "nof1q" => { t with f1q := false }
   | "f1r" => { t with f1r := true } | "nof1r" => { t with f1r := false }
+  | "f13" => { t with f13 := true } | "nof13" => { t with f13 := false }
   | "desc" => { t with desc := true }
   | _ =>
     if a.startsWith "tape=" then { t with tape := ((a.drop 5).toString.splitOn ",").filterMap String.toNat? } else t
